@@ -1,6 +1,14 @@
 """Native replay for C11: runs the real validate_zipfile on concrete entry
 vectors and compares with an executable copy of the spec predicate (written
-from the property statement)."""
+from the property statement).
+
+Families (routed by `_family`): predicate (boundary lattice on in-memory records, duplicate names), order (event monitor over
+every ZIP-container entry point: well-formed document, document + bomb member, and -- round 5 -- the bomb document in the
+damaged shapes of `_damaged`: trailing data beyond / within zipfile's search window, stub in front, archive comment, truncated
+end record, local headers only), propagate (exception type at the extractors), sequence (recycled buffers), limits (round 5:
+default configuration values, validate_zipfile / open_zipfile / validate_zip_bytesio / ZipContext WITHOUT limits at -1/0/+1 of
+every default threshold -- the wrappers on real ZIPs with forged central directories -- and non-default limits through both
+wrappers)."""
 import io
 import itertools
 from fractions import Fraction
@@ -632,7 +640,7 @@ def _forged_zip(entries):
 
 
 def native_default_wrappers():
-    """open_zipfile / validate_zip_bytesio called WITHOUT limits (what every in-library caller does) on real ZIPs with forged
+    """open_zipfile / validate_zip_bytesio / ZipContext called WITHOUT limits (what every in-library caller does) on real ZIPs with forged
     central directories at -1/0/+1 of every default threshold; expected outcome from the executable spec on the records stock
     zipfile lists, under the documented default configuration."""
     import zipfile
@@ -651,8 +659,13 @@ def native_default_wrappers():
         except Exception:  # noqa
             continue
         want = "rejected" if spec_reject_py(seen, SPEC_DEFAULTS) else "accepted"
-        for name in ("open_zipfile", "validate_zip_bytesio"):
-            fn = getattr(zip_bomb, name, None)
+        subjects = [(f"zip_bomb.py::{name}", getattr(zip_bomb, name, None)) for name in ("open_zipfile", "validate_zip_bytesio")]
+        try:                   # the in-library caller every container extractor goes through: it configures nothing
+            from sharepoint2text.parsing.extractors.util.zip_context import ZipContext
+            subjects.append(("zip_context.py::ZipContext", ZipContext))
+        except Exception:  # noqa
+            pass
+        for name, fn in subjects:
             if fn is None:
                 continue
             try:
@@ -666,7 +679,7 @@ def native_default_wrappers():
                 got = f"other:{type(e).__name__}"
             if got != want:
                 shown = seen if len(seen) <= 6 else f"{len(seen)} records, first {seen[0]}, last {seen[-1]}"
-                return {"target": f"zip_bomb.py::{name} (limits not passed: the default configuration)",
+                return {"target": f"{name} (limits not passed: the default configuration)",
                         "inputs": {"case": label + " (real ZIP, forged central directory)", "entries (file_size, compress_size, is_dir)": shown,
                                    "limits": "default"}, "expected": want, "observed": got}
     return None
